@@ -120,7 +120,11 @@ def handle (op : String) (j : Json) : Except String Json := do
     let subs ← (← getArr j "subs").mapM fun x => x.getInt?
     let disp ← getInt j "disp"
     match parse cfg s with
-    | .ok ms => pure (Json.mkObj [("ok", Json.arr (subs.map fun sub => msgsToJson (hotDeliver ms 0 sub disp)).toArray)])
+    | .ok ms =>
+      let created := (j.getObjValAs? Int "created").toOption.getD 0
+      let late := (j.getObjValAs? Bool "late").toOption.getD false
+      pure (Json.mkObj [("ok", Json.arr (subs.map fun sub =>
+        msgsToJson (if late then hotDeliverLate ms created sub disp else hotDeliver ms created sub disp)).toArray)])
     | .error e => pure (perrToJson e)
   | "marbles_ctx" =>
     -- reactivex.testing.marbles_testing(timespan): exp() = parse(shift = 200, no raise_stopped);
